@@ -373,3 +373,85 @@ def replay_demotion(model, path):
     o = r['lines'][-1]
     return {'mode': 'native-crate-test', 'scenario': 'parked pool limit 1 (held by another account), ready transaction loses its balance, run_maintenance', 'observed': o,
             'reproduced': o['before'] == 'pending' and o['after'] == 'unknown'}
+
+
+# ----------------------------------------------------------------------------------------------------------------- C13-5
+def _impl_fn(ex, name, self_ty):
+    cands = [n for n in ex.fns if n.endswith('::' + name) and 'closure' not in n and (ex.impl_self(n) or (None, ''))[1].split('<')[0] == self_ty]
+    if len(cands) != 1:
+        raise Inconclusive(f'{self_ty}::{name} not found: {cands}')
+    return cands[0]
+
+
+def _acct(ex, ty, k, tagp='t'):
+    olds = [mk_ttx(ex, f'{tagp}{i}') for i in range(k)]
+    cont = B.struct(ex, ty, txs=M.new_map('BTreeMap<u32, TimemarkedTransaction>', [(n, t) for t, n, _, _ in olds]))
+    pc = [z3.ULT(olds[i][1], olds[i + 1][1]) for i in range(k - 1)] + [z3.ULT(o[1], z3.BitVecVal(0xFFFFFFFF, 32)) for o in olds]
+    return cont, olds, pc
+
+
+def _vec_tags(ex, p, v):
+    v = ex.deref_val(p, v)
+    if isinstance(v, Obj) and v.kind == 'iter':
+        items = v.attrs['src'].attrs['items'][v.attrs.get('pos', 0):]
+        items = [x[1] if isinstance(x, tuple) else x for x in items]
+    else:
+        items = v.attrs['items']
+    return [ex.deref_val(p, x).attrs.get('tag') for x in items]
+
+
+@obligation('C13', 'C13-5a find_demotables: keeps exactly the longest jointly affordable prefix (in nonce order), hands back the rest, loses nothing')
+def c13_5a(run):
+    ex = engine()
+    f = _impl_fn(ex, 'find_demotables', 'PendingTransactionsForAccount')
+    run.bound(container='0..3 ready transactions of one account, nonces strictly increasing and < u32::MAX, one fee asset', balances='one asset, arbitrary u128')
+    run.assume('nonce u32::MAX is excluded (split point saturates there); a single fee asset')
+    for k in (0, 1, 2, 3):
+        cont, olds, pc = _acct(ex, 'PendingTransactionsForAccount', k)
+        bal = z3.BitVec('balance', 128)
+        st = ex.start(f, [B.cell(cont), M.new_map('HashMap<IbcPrefixed, u128>', [(ASSET, bal)])])
+        st.pc += pc
+        for i, p in enumerate(run.explore(ex, st, allow_havoc=(r'^Arguments::|fmt::',))):
+            lab = f'[{k} txs, path {i}]'
+            if p.kind != 'return':
+                run.prove(f'no panic {lab}', p.pc, z3.BoolVal(False), detail=p.info); continue
+            kept = [t for _, t in container_view(ex, p, ex.read(p, p.roots['args'][0].loc))]
+            out = _vec_tags(ex, p, p.result)
+            run.sample({'txs': k, 'path': i, 'kept': kept, 'demoted': out})
+            order = [f't{j}' for j in range(k)]
+            j = len(kept)
+            cum = lambda n_: sum((z3.ZeroExt(4, olds[x][2]) for x in range(n_)), z3.BitVecVal(0, 132))
+            claim = [z3.BoolVal(kept == order[:j] and out == order[j:]), z3.ULE(cum(j), z3.ZeroExt(4, bal))]
+            if j < k:
+                claim.append(z3.UGT(cum(j + 1), z3.ZeroExt(4, bal)))
+            run.prove(f'kept = longest affordable prefix, demoted = the rest in nonce order {lab}', p.pc, z3.And(*claim))
+    run.require_reached(*run.cur.reach)
+
+
+@obligation('C13', 'C13-5b find_promotables: hands out exactly the longest run of consecutive nonces from the target that is jointly affordable, keeps the rest')
+def c13_5b(run):
+    ex = engine()
+    ex.const_params = {'MAX_TX_COUNT': z3.BitVecVal(15, 64)}
+    f = _impl_fn(ex, 'find_promotables', 'ParkedTransactionsForAccount')
+    run.bound(container='0..3 parked transactions of one account, nonces strictly increasing and < u32::MAX, one fee asset', target='all u32', balances='one asset, arbitrary u128')
+    for k in (0, 1, 2, 3):
+        cont, olds, pc = _acct(ex, 'ParkedTransactionsForAccount', k)
+        bal = z3.BitVec('balance', 128); target = z3.BitVec('target_nonce', 32)
+        st = ex.start(f, [B.cell(cont), target, M.new_map('HashMap<IbcPrefixed, u128>', [(ASSET, bal)])])
+        st.pc += pc
+        for i, p in enumerate(run.explore(ex, st, allow_havoc=(r'^Arguments::|fmt::',))):
+            lab = f'[{k} txs, path {i}]'
+            if p.kind != 'return':
+                run.prove(f'no panic {lab}', p.pc, z3.BoolVal(False), detail=p.info); continue
+            kept = [t for _, t in container_view(ex, p, ex.read(p, p.roots['args'][0].loc))]
+            out = _vec_tags(ex, p, p.result)
+            run.sample({'txs': k, 'path': i, 'kept': kept, 'promoted': out})
+            order = [f't{j}' for j in range(k)]
+            j = len(out)
+            cum = lambda n_: sum((z3.ZeroExt(4, olds[x][2]) for x in range(n_)), z3.BitVecVal(0, 132))
+            claim = [z3.BoolVal(out == order[:j] and kept == order[j:]), z3.ULE(cum(j), z3.ZeroExt(4, bal))]
+            claim += [olds[x][1] == target + x for x in range(j)]
+            if j < k:
+                claim.append(z3.Or(olds[j][1] != target + j, z3.UGT(cum(j + 1), z3.ZeroExt(4, bal))))
+            run.prove(f'promoted = longest run target, target+1, ... that is jointly affordable; kept = the rest {lab}', p.pc, z3.And(*claim))
+    run.require_reached(*run.cur.reach)
